@@ -240,6 +240,11 @@ type Obligation struct {
 	Extra    []string
 	Parts    []Term // the goal as a conjunction of smaller goals (tried when the whole goal does not discharge)
 	pc       Term
+	// Raw: a complete SMT-LIB script (used for the IEEE-754 side conditions, which live in QF_BVFP and share
+	// nothing with the integer/heap context of the function); unsat = discharged.
+	Raw string
+	// ThoroughOnly: needs more solver time than the quick tier allows; the quick tier lists it as unchecked.
+	ThoroughOnly bool
 }
 
 func (c *Ctx) Fresh(prefix, srt string) Term {
@@ -366,6 +371,9 @@ func (o *Obligation) SetParts(parts []Term) {
 func (o *Obligation) SMT(produceModels bool) string { return o.smtFor(o.Goal, produceModels) }
 
 func (o *Obligation) smtFor(goal Term, produceModels bool) string {
+	if o.Raw != "" {
+		return o.Raw
+	}
 	c := o.ctx
 	var b strings.Builder
 	if produceModels {
